@@ -25,7 +25,7 @@ fn tweak(g: &mut GenCfg, rng: &mut Rng) {
 fn hostile_haystacks(p: &Program, rng: &mut Rng, n_random: usize) -> Vec<String> {
     let edge: [u32; 9] = [0x0, 0x7F, 0x80, 0x7FF, 0x800, 0xFFFF, 0x10000, 0x10FFFF, 0x2028];
     let mut v: Vec<String> = vec![String::new()];
-    let alpha = gen::relevant_alphabet(&p.mentioned, 6, true);
+    let alpha = gen::relevant_alphabet(&p.mentioned, 10, true);
     let pick = |rng: &mut Rng, alpha: &[u32]| char::from_u32(*rng.pick(alpha)).unwrap_or('a');
     for &e in &edge {
         let ec = char::from_u32(e).unwrap();
@@ -34,6 +34,14 @@ fn hostile_haystacks(p: &Program, rng: &mut Rng, n_random: usize) -> Vec<String>
         v.push(format!("{}{}", ec, mid));
         v.push(format!("{}{}", mid, ec));
         v.push(format!("{}{}{}", ec, mid, ec));
+    }
+    // every pair / triple over the (small) relevant alphabet, which includes byte-confusable
+    // characters for Latin-1 code points of the pattern
+    let chars: Vec<char> = alpha.iter().filter_map(|&c| char::from_u32(c)).collect();
+    for &a in &chars {
+        for &b in &chars {
+            v.push(format!("{}{}", a, b));
+        }
     }
     for _ in 0..n_random {
         let len = *rng.pick(&[1usize, 2, 3, 5, 8, 15, 16, 17, 31, 33]);
@@ -68,8 +76,7 @@ pub fn run(cfg: &Cfg, rep: &mut Report) {
         enum_nodes: if bounded { 1 } else if cfg.quick() { 2 } else { 3 },
         enum_flags: vec![fl(""), fl("iu")],
         tweak,
-        fixed,
-    };
+        fixed, templates: !bounded };
     let mut cases = 0usize;
     for_each_program(cfg, rep, &spec, |p, rep, rng| {
         if cases >= max_cases {
